@@ -9,8 +9,9 @@ C12, the naming conventions and the keyword filter of `call()`.
 * `filter_ignores_junk`, `call_filter_nonkeywords`: string keys of `kwargs` that are not keywords never
   change what `call(name, args, kwargs)` does; `call_keywords_pass`, `call_resolver_input`: keyword keys
   reach the resolver exactly as the direct spelling `f(args.., k => v ..)` does.
-* `call_junk_invariant_full` is the statement for ALL keys that are not keywords; the code violates it for a
-  key that is not a string (`call_nonstring_key_raises`, `not_call_junk_invariant_full`).
+* `call_junk_invariant_full` is the statement for ALL keys that are not keywords, strings or not; proved
+  (`call_junk_invariant`, `call_nonstring_key_dropped`) for the code since d6863d4 (before it a key that was not
+  a string made `is_keyword` raise TypeError).
 -/
 namespace Yaql.Props.C12
 open Yaql.Types Yaql.Resolve Yaql.Registry Yaql.Naming
@@ -187,44 +188,68 @@ example : convertParameterName ['k', 'e', 'y', '_', 's', 'e', 'l', 'e', 'c', 't'
 
 /-! ## call(): the keyword filter -/
 
-/-- a string key that `filter_parameters_dict` is there to drop -/
+/-- a key that `filter_parameters_dict` is there to drop: not a string, or a string that is no keyword -/
 def junk : DKey → Bool
   | .str s => !isKeyword s
-  | .other _ => false
+  | .other _ => true
 
-/-- `filter_parameters_dict` does not see string keys that are not keywords, wherever they sit -/
+/-- `filter_parameters_dict` does not see keys that are no keywords, wherever they sit -/
 theorem filter_ignores_junk {α : Type} : ∀ kws : List (DKey × α),
     filterParametersDict (kws.filter fun kv => !junk kv.1) = filterParametersDict kws
   | [] => rfl
-  | (.other t, v) :: r => by simp [List.filter, junk, filterParametersDict]
+  | (.other t, v) :: r => by
+      have hj : junk (.other t) = true := rfl
+      simp only [List.filter_cons, hj, Bool.not_true, Bool.false_eq_true, if_false, filterParametersDict]
+      exact filter_ignores_junk r
   | (.str s, v) :: r => by
       have ih := filter_ignores_junk r
       have hj : junk (.str s) = !isKeyword s := rfl
       cases hk : isKeyword s
       · simp only [List.filter_cons, hj, hk, Bool.not_false, Bool.not_true, Bool.false_eq_true, if_false, ih,
           filterParametersDict]
-        cases filterParametersDict r <;> rfl
       · simp only [List.filter_cons, hj, hk, Bool.not_true, Bool.not_false, if_true, filterParametersDict, ih]
 
-/-- adding string keys that are not keywords to `kwargs` - any number, anywhere - never changes the
-    outcome of `call(name, args, kwargs)` -/
+/-- the statement for EVERY key that is not a keyword, strings or not: such keys - any number, anywhere in the
+    dictionary - never change the outcome of `call(name, args, kwargs)` -/
+def call_junk_invariant_full : Prop :=
+  ∀ (L : Lattice) (layers : List Layer) (recv : Option Val) (args : List Val) (kwargs : List (DKey × Val)),
+    callFunc L layers recv args kwargs =
+      callFunc L layers recv args (kwargs.filter fun kv => match kv.1 with | .str s => isKeyword s | .other _ => false)
+
 theorem call_filter_nonkeywords (L : Lattice) (layers : List Layer) (recv : Option Val) (args : List Val)
     (kwargs : List (DKey × Val)) :
     callFunc L layers recv args kwargs = callFunc L layers recv args (kwargs.filter fun kv => !junk kv.1) := by
   simp [callFunc, callHandOver, filter_ignores_junk]
 
+/-- the full statement holds for the code as it is since d6863d4 -/
+theorem call_junk_invariant : call_junk_invariant_full := by
+  intro L layers recv args kwargs
+  have h : (fun kv : DKey × Val => match kv.1 with | .str s => isKeyword s | .other _ => false) =
+      (fun kv => !junk kv.1) := by
+    funext kv
+    cases kv.1 <;> simp [junk]
+  rw [h]
+  exact call_filter_nonkeywords L layers recv args kwargs
+
 /-- one such key between any two parts of the dictionary -/
 theorem call_filter_one (L : Lattice) (layers : List Layer) (recv : Option Val) (args : List Val)
-    (a b : List (DKey × Val)) (s : List Char) (v : Val) (h : isKeyword s = false) :
-    callFunc L layers recv args (a ++ (.str s, v) :: b) = callFunc L layers recv args (a ++ b) := by
-  rw [call_filter_nonkeywords L layers recv args (a ++ (.str s, v) :: b), call_filter_nonkeywords L layers recv args (a ++ b)]
-  simp [List.filter_append, List.filter, junk, h]
+    (a b : List (DKey × Val)) (k : DKey) (v : Val) (h : junk k = true) :
+    callFunc L layers recv args (a ++ (k, v) :: b) = callFunc L layers recv args (a ++ b) := by
+  rw [call_filter_nonkeywords L layers recv args (a ++ (k, v) :: b), call_filter_nonkeywords L layers recv args (a ++ b)]
+  simp [List.filter_append, List.filter, h]
+
+/-- a key that is not a string is dropped like any other key that is no keyword (before d6863d4 it made
+    `is_keyword` raise TypeError) -/
+theorem call_nonstring_key_dropped (L : Lattice) (layers : List Layer) (recv : Option Val) (args : List Val)
+    (a b : List (DKey × Val)) (t : Nat) (v : Val) :
+    callFunc L layers recv args (a ++ (.other t, v) :: b) = callFunc L layers recv args (a ++ b) :=
+  call_filter_one L layers recv args a b (.other t) v rfl
 
 def strKeys {α : Type} (kws : List (Name × α)) : List (DKey × α) := kws.map fun kv => (.str kv.1, kv.2)
 
 /-- keys that are keywords all reach the resolver, in order -/
 theorem filter_keeps_keywords {α : Type} : ∀ kws : List (Name × α), (kws.all fun kv => isKeyword kv.1) = true →
-    filterParametersDict (strKeys kws) = .ok kws
+    filterParametersDict (strKeys kws) = kws
   | [], _ => rfl
   | (k, v) :: r, h => by
       simp only [List.all_cons, Bool.and_eq_true] at h
@@ -233,48 +258,28 @@ theorem filter_keeps_keywords {α : Type} : ∀ kws : List (Name × α), (kws.al
       simp [filterParametersDict, ih, h.1]
 
 theorem call_keywords_pass (args : List Val) (kws : List (Name × Val)) (h : (kws.all fun kv => isKeyword kv.1) = true) :
-    callHandOver args (strKeys kws) = .ok (args.map .value, kws.map fun kv => (kv.1, .value kv.2)) := by
+    callHandOver args (strKeys kws) = (args.map .value, kws.map fun kv => (kv.1, .value kv.2)) := by
   simp [callHandOver, filter_keeps_keywords kws h]
 
 /-- `call(name, args, kwargs)` with keyword keys gives the resolver what the direct spelling
     `name(args.., k => v ..)` gives it (`call_equiv` after the filter) -/
 theorem call_resolver_input (args : List Val) (kws : List (Name × Val)) (ek1 ek2 : Nat) (lit : Lit) (v : Val)
     (h : (kws.all fun kv => isKeyword kv.1) = true) (hd : distinct (kws.map (·.1)) = true) :
-    ∃ a kw, callHandOver args (strKeys kws) = .ok (a, kw) ∧
-      translateArgs false a kw = translateArgs false (a ++ asMappingRules kw ek1 ek2 lit v) [] := by
-  refine ⟨args.map .value, kws.map fun kv => (kv.1, .value kv.2), call_keywords_pass args kws h, ?_⟩
+    translateArgs false (callHandOver args (strKeys kws)).1 (callHandOver args (strKeys kws)).2 =
+      translateArgs false ((callHandOver args (strKeys kws)).1 ++
+        asMappingRules (callHandOver args (strKeys kws)).2 ek1 ek2 lit v) [] := by
+  rw [call_keywords_pass args kws h]
   have hpos : (args.map Arg.value).all noMapRule = true := by simp [noMapRule]
   have hd' : distinct ((kws.map fun kv => (kv.1, Arg.value kv.2)).map (·.1)) = true := by
     simpa [List.map_map, Function.comp_def] using hd
   have := call_equiv (args.map .value) (kws.map fun kv => (kv.1, .value kv.2)) ek1 ek2 lit v hpos hd'
   rw [this.1, this.2]
 
-/-- the statement for every key that is not a keyword, strings or not -/
-def call_junk_invariant_full : Prop :=
-  ∀ (L : Lattice) (layers : List Layer) (recv : Option Val) (args : List Val) (kwargs : List (DKey × Val)),
-    callFunc L layers recv args kwargs =
-      callFunc L layers recv args (kwargs.filter fun kv => match kv.1 with | .str s => isKeyword s | .other _ => false)
-
-/-- a key that is not a string makes `is_keyword` raise, whatever else is in the dictionary -/
-theorem call_nonstring_key_raises {α : Type} (t : Nat) (v : α) : ∀ (a b : List (DKey × α)),
-    filterParametersDict (a ++ (.other t, v) :: b) = .error .typeError
-  | [], b => rfl
-  | (.other _, _) :: a, b => rfl
-  | (.str s, w) :: a, b => by
-      simp [filterParametersDict, call_nonstring_key_raises t v a b]
-
-/-- ... so the code as it is does not have the full property: `call(f, [], {1 => x})` raises TypeError where
-    `call(f, [], {})` asks the resolver -/
-theorem not_call_junk_invariant_full : ¬ call_junk_invariant_full := by
-  intro h
-  have := h { sub := fun _ _ => false, marker := .none } [] none [] [(.other 0, .none)]
-  simp [callFunc, callHandOver, filterParametersDict] at this
-
 example : isKeyword ['a'] = true ∧ isKeyword ['_', 'x'] = true ∧ isKeyword ['a', ' ', 'b'] = true ∧
     isKeyword [] = false ∧ isKeyword ['_', '_', 'x'] = false ∧ isKeyword ['1', 'a'] = false ∧
     isKeyword [' ', 'a'] = false ∧
-    filterParametersDict [(.str ['a'], 1), (.str ['_', '_', 'x'], 2), (.str [], 3), (.str ['b'], 4)] =
-      .ok [(['a'], 1), (['b'], 4)] := by
+    filterParametersDict [(.str ['a'], 1), (.str ['_', '_', 'x'], 2), (.other 7, 5), (.str [], 3), (.str ['b'], 4)] =
+      [(['a'], 1), (['b'], 4)] := by
   decide
 
 end Yaql.Props.C12
